@@ -198,7 +198,21 @@ def _checkout_pair(ck: Checker) -> None:
 def _load(ck: Checker) -> None:
     prog = ck.prog
     ld = prog.func("hashfile.tree", "Tree.load")
-    src = {norm(n.targets[0]): norm(n.value) for n in walk_own(ld.node) if isinstance(n, ast.Assign) and len(n.targets) == 1}
-    ck.require(src.get("tree.hash_info") == "hash_info" and src.get("tree.oid") == "hash_info.value", "C02.load", ld, ld.node, "loaded tree keeps the requested identifier", f"loaded tree identity is {src.get('tree.hash_info')}, {src.get('tree.oid')}", construct="tree.hash_info / tree.oid")
-    ck.require(src.get("obj") == "odb.get(hash_info.value)" and src.get("tree.path") == "obj.path" and src.get("tree.fs") == "obj.fs", "C02.load", ld, ld.node, "loaded tree points at the stored object", "loaded tree does not point at odb.get(hash_info.value)", construct="tree.path / tree.fs")
-    ck.require("json.load(fobj)" in src.get("raw", "") and "from_list(raw" in src.get("tree", ""), "C02.load", ld, ld.node, "listing is parsed from the stored file", "Tree.load does not parse the stored listing with from_list", construct="raw = json.load; from_list(raw)")
+    from ..prov import expand_txt
+
+    # the tree object: the local bound to the from_list(...) result; every field is compared after expanding locals
+    fl_calls = [n for n in walk_own(ld.node) if isinstance(n, ast.Assign) and len(n.targets) == 1 and isinstance(n.targets[0], ast.Name)
+                and isinstance(n.value, ast.Call) and isinstance(n.value.func, ast.Attribute) and n.value.func.attr == "from_list"]
+    ck.floor("C02.load", len(fl_calls), 1, "from_list call in Tree.load")
+    tname = fl_calls[0].targets[0].id
+    src = {}
+    for n in walk_own(ld.node):
+        if isinstance(n, ast.Assign) and len(n.targets) == 1 and isinstance(n.targets[0], ast.Attribute) and isinstance(n.targets[0].value, ast.Name) and n.targets[0].value.id == tname:
+            src[n.targets[0].attr] = set(expand_txt(prog, ld, n.value))
+    stored = "odb.get(hash_info.value)"
+    ck.require(src.get("hash_info") == {"hash_info"} and src.get("oid") == {"hash_info.value"}, "C02.load", ld, ld.node, "loaded tree keeps the requested identifier", f"loaded tree identity is {src.get('hash_info')}, {src.get('oid')}", construct="tree.hash_info / tree.oid")
+    ck.require(src.get("path") == {stored + ".path"} and src.get("fs") == {stored + ".fs"}, "C02.load", ld, ld.node, "loaded tree points at the stored object", f"loaded tree does not point at odb.get(hash_info.value) (path {src.get('path')}, fs {src.get('fs')})", construct="tree.path / tree.fs")
+    arg = fl_calls[0].value.args[0] if fl_calls[0].value.args else None
+    parsed = set(expand_txt(prog, ld, arg)) if arg is not None else set()
+    want = f"json.load(__enter__({stored}.fs.open({stored}.path"
+    ck.require(bool(parsed) and all(a.startswith(want) for a in parsed), "C02.load", ld, ld.node, "listing is parsed from the stored file", f"Tree.load does not parse the stored listing with from_list (it parses {sorted(parsed)})", construct="raw = json.load; from_list(raw)")
